@@ -83,12 +83,20 @@ inline std::unique_ptr<ISpline> makeSplineHist(Ctx &c, Rng &r, const Problem &p,
         // exactly the same problem again / the final problem's durations
         if (havePrev && r.coin(0.5))
         {
-            int k = r.range(0, 2);
+            int k = r.range(0, 3);
             Problem q2 = genProblem(r, p.order, p.dim, prev.N);
             if (k == 0)
             {
                 q2.T = prev.T;
                 q2.t0 = prev.t0;
+            }
+            else if (k == 3)
+            {
+                // durations moved by a tiny amount (late iterations of an optimisation)
+                q2.T = prev.T;
+                double eps = std::pow(10.0, -(double)r.range(7, 12));
+                for (auto &t : q2.T)
+                    t *= 1.0 + eps * r.uni(-1, 1);
             }
             else if (k == 1)
             {
@@ -99,11 +107,17 @@ inline std::unique_ptr<ISpline> makeSplineHist(Ctx &c, Rng &r, const Problem &p,
                 q2 = prev;
             q = q2;
         }
-        else if (r.coin(0.25))
+        else if (r.coin(0.3))
         {
             q = genProblem(r, p.order, p.dim, p.N);
             q.T = p.T;
             q.t0 = p.t0;
+            if (r.coin())
+            {
+                double eps = std::pow(10.0, -(double)r.range(7, 12));
+                for (auto &t : q.T)
+                    t *= 1.0 + eps * r.uni(-1, 1);
+            }
         }
         prev = q;
         havePrev = true;
